@@ -134,6 +134,54 @@ def gen_instance(rng, big: bool = False, terminals: bool = False) -> dict:
     return {"W": W, "H": H, "mods": mods, "nets": nets}
 
 
+def scaled(inp: dict, S: float) -> dict:
+    """the same design with every length multiplied by S (areas by S^2)."""
+    def sa(a):
+        return {k: v * S * S for k, v in a.items()} if isinstance(a, dict) else a * S * S
+    mods = []
+    for m in inp["mods"]:
+        m = dict(m)
+        if "area" in m:
+            m["area"] = sa(m["area"])
+        if m.get("center") is not None:
+            m["center"] = [m["center"][0] * S, m["center"][1] * S]
+        if "rects" in m:
+            m["rects"] = [[v * S for v in r] for r in m["rects"]]
+        mods.append(m)
+    return {"W": inp["W"] * S, "H": inp["H"] * S, "mods": mods, "nets": inp["nets"]}
+
+
+def gen_huge(rng) -> dict:
+    """designs with max(die side) x number of modules >= 1e10: the convergence tolerance of spectral_layout_die
+    (epsilon = max(size) * n * 1e-10) is then >= 1 and the power-iteration loop is not entered at all."""
+    if rng.random() < 0.75:
+        return scaled(gen_instance(rng), float(2 ** 30) * rng.choice([1.0, 2.0, 4.0]))  # e.g. 8 modules on 8.6e9 x 6.4e9
+    n = rng.randint(420, 520)  # many small modules on a 2.5e7 x 2e7 die
+    W, H = 2.5e7, 2.0e7
+    mods = [{"name": f"M{i}", "kind": "soft", "area": rng.uniform(1e9, 4e11)} for i in range(n)]
+    for m in rng.sample(mods, 20):
+        m["center"] = [rng.uniform(0, W), rng.uniform(0, H)]
+    nets = [[f"M{i}", f"M{i + 1}"] for i in range(n - 1)]
+    for _ in range(40):
+        nets.append([f"M{j}" for j in rng.sample(range(n), rng.randint(2, 4))] + [rng.choice([1.0, 2.0, 0.5])])
+    return {"W": W, "H": H, "mods": mods, "nets": nets}
+
+
+def star_on_one_fixed(inp: dict) -> bool:
+    """region of finding C14-orthogonality-assert: no net joins two movable modules and all movable modules have one and
+    the same fixed module as their only neighbour."""
+    fixed = {m["name"] for m in inp["mods"] if m["kind"] in ("fixed", "fterminal")}
+    movable = {m["name"] for m in inp["mods"]} - fixed
+    nb = {m: set() for m in movable}
+    for e in inp["nets"]:
+        pins = [x for x in e if isinstance(x, str)]
+        for a in pins:
+            if a in movable:
+                nb[a] |= set(pins) - {a}
+    allnb = set().union(*nb.values()) if nb else set()
+    return bool(movable) and len(allnb) == 1 and allnb <= fixed and all(nb[m] == allnb for m in movable)
+
+
 def yaml_text(inp: dict) -> str:
     lines = []
     for m in inp["mods"]:
@@ -323,7 +371,8 @@ def check_layout_run(ctx: Ctx, inp: dict, judge: bool = True) -> None:
     rep = ctx.model([req])
     if exc is not None:
         if judge:
-            ctx.spec_fail("operation-raised", inp, {"op": "Spectral.spectral_layout", "exception": type(exc).__name__, "msg": str(exc)[:120]}, size=n)
+            ctx.spec_fail("operation-raised", inp, {"op": "Spectral.spectral_layout", "exception": type(exc).__name__, "msg": str(exc)[:120]}, size=n,
+                          finding="C14-orthogonality-assert" if isinstance(exc, AssertionError) and star_on_one_fixed(inp) else None)
         if rep is not None and rep[0] != err_of(exc):
             ctx.disagree("slayout", inp, err_of(exc), rep[0][:200], size=n)
         return
@@ -511,11 +560,23 @@ def check_sld(ctx: Ctx, inp: dict) -> None:
                 back = coord[d][i] + sz / 2
                 if ulps(back, init[d][i], sz / 2) > 4:
                     ctx.spec_fail("die:fixed-unmoved", inp, {"node": i, "dim": d, "initial": init[d][i], "returned+size/2": back}, size=n)
+    # every movable node's disc inside the die, on what spectral_layout_die returned (die-centred coordinates)
+    for i in range(len(fixed)):
+        if not fixed[i]:
+            r_i = math.sqrt(mass[i] / math.pi)
+            for d, sz in ((0, W), (1, H)):
+                if not abs(coord[d][i]) <= sz / 2 - r_i + 1e-9 * sz:
+                    ctx.spec_fail("die:disc-inside-die", inp, {"node": i, "dim": d, "coord": coord[d][i], "radius": r_i, "size": sz,
+                                                               "iterations": list(iters)}, size=n)
+    ctx.count("sld-loop-not-entered" if list(iters) == [0, 0] else "sld-loop-entered")
     parts = rep[0].split(" | ")
     mx, my = [hex2f(t) for t in parts[0].split()], [hex2f(t) for t in parts[1].split()]
     mwl, mit = hex2f(parts[2]), [int(t) for t in parts[3].split()]
     size = max(W, H)
     same_iters = mit == list(iters)
+    if [k == 0 for k in mit] != [k == 0 for k in iters]:  # the loop-entry condition itself (0 iterations vs some)
+        ctx.disagree("sld:loop-entry", inp, {"iters": list(iters)}, {"iters": mit}, size=n)
+        return
     tol = (1e-9 if same_iters else 1e-7) * size
     if not (vclose(mx, coord[0], tol) and vclose(my, coord[1], tol) and abs(mwl - wl) <= 1e-9 * max(1.0, abs(wl)) * (1 if same_iters else 100)
             and int(parts[4]) == 0):
@@ -698,7 +759,7 @@ def run(ctx: Ctx) -> None:
     rng = ctx.rng
     ctx.rule = ("instances: die 5..25 (integer and decimal sizes), 4..7 (thorough 9) movable modules (soft with/without centre, area as a number or split over region types incl. nothing in `_`; hard with 1-3 "
                 "rectangles) + 0..3 fixed modules (rectangles) + 0..4 fixed terminals with a centre (on the border, in corners, inside), connected net list (random spanning tree, chain or star + extra nets of arity "
-                "2..5, default and explicit weights), every disc fits; runs: Python `random` seeded per run, nfloorplans 0..3 (0 = use the "
+                "2..5, default and explicit weights), every disc fits; 25-30% of the runs use a huge design (the same scaled by 2^30..2^32, or 420-520 modules on 2.5e7 x 2e7) for which epsilon >= 1 and the loop is not entered; runs: Python `random` seeded per run, nfloorplans 0..3 (0 = use the "
                 "given centres), draws captured. Streams: unit ops (normalize F/Q, ortho, andp, nsum, centroids, swl, recenter F/Q), `sld` = "
                 "whole spectral_layout_die runs, `slayout` = whole spectral_layout runs (+ a few with movable terminals, correspondence "
                 "only), `delta-probe` = normalize on vectors with entries at/below 1e-9.")
@@ -719,7 +780,7 @@ def run(ctx: Ctx) -> None:
         if time.time() - t0 > min(budget * ctx.budget, max(budget, 60)):
             ctx.notes.append(f"sld stream stopped by its time budget after {i} runs")
             break
-        inp = gen_instance(rng, big=ctx.tier != "quick")
+        inp = gen_huge(rng) if rng.random() < 0.3 else gen_instance(rng, big=ctx.tier != "quick")
         n = len(inp["mods"])
         inp["seed"] = rng.randrange(10 ** 6)
         inp["init"] = [[(None if rng.random() < 0.6 else rng.uniform(0, inp["W" if d == 0 else "H"])) for _ in range(n)] for d in range(2)]
@@ -733,6 +794,9 @@ def run(ctx: Ctx) -> None:
             break
         terminals = rng.random() < 0.1
         inp = gen_instance(rng, big=ctx.tier != "quick", terminals=terminals)
+        if not terminals and rng.random() < 0.25:
+            inp = gen_huge(rng)
+            ctx.count("huge-design(loop not entered)")
         inp["seed"] = rng.randrange(10 ** 6)
         inp["nfl"] = rng.choice([1, 1, 2, 3, 5 if ctx.tier != "quick" else 2])
         if rng.random() < 0.15:
